@@ -88,6 +88,22 @@
       `None`).  Arguments are copied in: a method that changed (or rebound) a parameter holding a mutable object is
       refused (`callMeth`, guard `argsKept`), as is a bound method passed as an argument or returned;
     * a field of the receiver with the name of a method would hide it in Python: such a call is `unsupported`.
+
+  Extension for `SpecialAttributes.StyleAttribute` (the tie is `Props/C10Code.lean`).  Further assumptions:
+
+    * the class overrides dot access; `self.f` is the plain attribute for the names in its `RESERVED_ATTRIBUTES` only, and the
+      translator refuses any other `self.f` in a dumped method — so `obj fields` is the meaning here too;
+    * `x = self.f` (`Stmt.alias`) gives the object in the field a second name: `Val.ref o f` NAMES the field; reading `x`
+      (`Expr.avar`) reads the field as it is then, `x[k] = v` / `del x[k]` (`Stmt.setItemRef/delItemRef`) change the dict in the
+      field.  That is Python's meaning as long as the field itself is not assigned meanwhile: the translator checks that the
+      function does not assign it and that `x` is bound once, at the top level, before its uses;
+    * `[e for a, b in d.items()]` (`Expr.compItems`): `e` is evaluated for the pairs of the dict in order, `a` and `b` bound in
+      an environment of their own (they do not leak; the translator checks they are used nowhere else);
+    * `a + b` on two texts is concatenation; `c in text` for a one-character text `c`; `text.startswith(prefix)`;
+    * `object.__getattribute__(self, n)` (`Expr.objAttr`) is the field named by the text `n` (a method or class attribute
+      of that name is NOT found: `AttributeError`); `object.__setattr__(self, n, v)` is `Expr.outside`: not modelled, an error;
+    * `self._ensureHtmlAttribute()` is a parameter (`Ctx.selfMeth`): it writes the attribute store of the tag the style
+      belongs to, not the style object (the translator checks its exact body).
 -/
 import AHP.Model.Basic
 import AHP.Model.Conv
@@ -125,6 +141,7 @@ inductive Val where
   | obj (fields : List (String × Field))   -- `self`: an object with attributes
   | set (vs : List PyV)            -- a Python set of hashable model values
   | bound (o m : String)           -- the bound method `o.m` of the object that the local variable `o` holds
+  | ref (o f : String)             -- a second name of the object in the field `f` of the object that the variable `o` holds
   deriving DecidableEq, Repr, Inhabited
 
 def Field.toVal : Field → Val
@@ -196,6 +213,7 @@ def pyEq (x y : Val) : Except PyErr Bool :=
   | .obj _ => (match y with | .obj _ => .error (unsupported "==") | _ => .ok false)
   | .set _ => (match y with | .set _ => .error (unsupported "==") | _ => .ok false)
   | .bound _ _ => (match y with | .bound _ _ => .error (unsupported "==") | _ => .ok false)
+  | .ref _ _ => .error (unsupported "==")
 
 /-- Objects of which there is exactly one: `is` is then structural equality of the representation. -/
 def Val.unique : Val → Bool
@@ -264,6 +282,10 @@ def pyIn (x c : Val) : Except PyErr Bool :=
   | .set vs => (match x with
       | .py a => if hashable a then .ok (sMem vs a) else .error (unsupported "in")
       | _ => .error (unsupported "in"))
+  | .py (.str s) => (match x with
+      | .py (.str [c]) => .ok (s.contains c)
+      | .py (.str _) => .error (unsupported "in: a text of another length than one in a text")
+      | _ => .error .typeError)
   | _ => .error (unsupported "in")
 
 inductive CmpOp where
@@ -325,6 +347,7 @@ def getAttr (x : Val) (a : String) : Except PyErr Val :=
     | .obj _ => .ok (.cls "object")
     | .set _ => .ok (.cls "set")
     | .bound _ _ => .ok (.cls "method")
+    | .ref _ _ => .error (unsupported "attribute of an alias")
   else
     match x with
     | .obj fs => (match fs.lookup a with | some fv => .ok fv.toVal | none => .error (.other "AttributeError"))
@@ -421,6 +444,10 @@ def callMethod (x : Val) (m : String) (args : List Val) : Except PyErr Val :=
        | [.list vs] => (match strItems vs with | some ws => .ok (.py (.str (joinWith s ws))) | none => .error .typeError)
        | [.tuple vs] => (match strItems vs with | some ws => .ok (.py (.str (joinWith s ws))) | none => .error .typeError)
        | _ => .error (unsupported "join of something else than a list"))
+    else if m = "startswith" then
+      (match args with
+       | [.py (.str a)] => .ok (.py (.bool (a.isPrefixOf s)))
+       | _ => .error (unsupported "startswith of something else than a text"))
     else if m = "replace" then
       (match args with
        | [.py (.str a), .py (.str b)] =>
@@ -519,14 +546,17 @@ inductive BinOp where
   | add | sub | mul
   deriving DecidableEq, Repr, Inhabited
 
-/-- `a + b`, `a - b`, `a * b`: between numbers only (concatenation and repetition are refused). -/
+/-- `a + b`, `a - b`, `a * b` between numbers; `a + b` between texts (concatenation); anything else is refused. -/
 def pyBinop (op : BinOp) (x y : Val) : Except PyErr Val :=
   match numOf x with
   | some a =>
     (match numOf y with
      | some b => .ok (.py (.int (match op with | .add => a + b | .sub => a - b | .mul => a * b)))
      | none => .error (unsupported "arithmetic on something else than numbers"))
-  | none => .error (unsupported "arithmetic on something else than numbers")
+  | none =>
+    (match op, x, y with
+     | .add, .py (.str a), .py (.str b) => .ok (.py (.str (a ++ b)))
+     | _, _, _ => .error (unsupported "arithmetic on something else than numbers"))
 
 /-- Item `i` of a sequence, negative `i` counting from the end; `none`: `IndexError`. -/
 def seqItem (l : List α) (i : Int) : Option α :=
@@ -677,6 +707,10 @@ inductive Expr where
   | sliceAll (e : Expr)                                 -- e[:]
   | construct (cls : String) (args : List Expr)         -- C(args) for the class C whose methods are in `Ctx.meths`
   | boundMeth (o m : String)                            -- o.m as a value, o a local variable, m a method of the class
+  | avar (x : String)                                   -- a local variable that is a second name of a field of `self`
+  | compItems (k v : String) (elt d : Expr)             -- [elt for k, v in d.items()]
+  | objAttr (o : String) (n : Expr)                     -- object.__getattribute__(o, n): the plain attribute named by `n`
+  | outside (what : String)                             -- a call the interpreter does not model: evaluates to an error
   deriving Repr, Inhabited
 
 /-- Does the expression CREATE the list it evaluates to (so that no other name reaches the same object)? -/
@@ -689,6 +723,7 @@ def Expr.makesNew : Expr → Bool
   | .newSet => true
   | .sliceAll _ => true
   | .construct _ _ => true          -- (a constructor that kept one of its mutable arguments is refused: `callMeth`)
+  | .compItems .. => true
   | .call f _ => f = "list"         -- the builtin `list(x)` (the guard `aliasOK` checks that no function of the module hides it)
   | .meth _ m _ => m = "split"      -- `text.split(sep)` (a method of `self` never returns a mutable object: `eval`)
   | _ => false
@@ -718,6 +753,9 @@ inductive Stmt where
   | varCall (x m : String) (args : List Expr)           -- x.m(args) as a statement, x a local variable (a list)
   | setItemVar (x : String) (k v : Expr)                -- x[k] = v, x a local variable (a dict)
   | baseCall (o m : String) (args : List Expr)          -- list.m(o, args) as a statement (`o` is `self`, its class derives from list)
+  | alias (x o f : String)                              -- x = o.f, making x a second name of the object in the field
+  | setItemRef (x : String) (k v : Expr)                -- x[k] = v, x such a second name (of a dict)
+  | delItemRef (x : String) (k : Expr)                  -- del x[k], x such a second name (of a dict)
 inductive Handler where
   | mk (type : Option String) (body : List Stmt)        -- `except:` (none) / `except T:` (some T)
   | mkAs (type : String) (name : String) (body : List Stmt)   -- `except T as name:`
@@ -825,6 +863,40 @@ def toTuple : List Val → Except PyErr Val
   | vs => if vs.all (fun v => match v with | .py _ => true | _ => false)
           then .ok (.tuple (vs.filterMap (fun v => match v with | .py p => some p | _ => none)))
           else .error (unsupported "tuple of objects")
+
+/-- the values of a comprehension, in order; the first error wins; the items must be model values -/
+def collectPy : List (Except PyErr Val) → Except PyErr (List PyV)
+  | [] => .ok []
+  | .error e :: _ => .error e
+  | .ok (.py v) :: r => (match collectPy r with | .ok vs => .ok (v :: vs) | .error e => .error e)
+  | .ok _ :: _ => .error (unsupported "list of objects")
+
+/-- `d[k] = v` for the dict in the field `o.f` -/
+def setItemAt (env : Env) (o f : String) (kv vv : Val) : Env × Res :=
+  match getField env o f with
+  | .error err => (env, .exc err)
+  | .ok (.dict kvs) =>
+    (match kv, vv with
+     | .py k', .py v' =>
+       if hashable k' then ((putField env o f (.dict (dSet kvs k' v'))).1, .next)
+       else (env, .exc (unsupported "dict key"))
+     | _, _ => (env, .exc (unsupported "dict of objects")))
+  | .ok _ => (env, .exc (unsupported "item assignment"))
+
+/-- `del d[k]` for the dict in the field `o.f` (`KeyError` when absent) -/
+def delItemAt (env : Env) (o f : String) (kv : Val) : Env × Res :=
+  match getField env o f with
+  | .error err => (env, .exc err)
+  | .ok (.dict kvs) =>
+    (match kv with
+     | .py k' =>
+       if hashable k' then
+         (match dGet kvs k' with
+          | some _ => ((putField env o f (.dict (dDel kvs k'))).1, .next)
+          | none => (env, .exc .keyError))
+       else (env, .exc (unsupported "dict key"))
+     | _ => (env, .exc (unsupported "dict key")))
+  | .ok _ => (env, .exc (unsupported "item deletion"))
 
 def Val.isBound : Val → Bool
   | .bound _ _ => true
@@ -960,6 +1032,28 @@ def eval (cx : Ctx) (env : Env) : Expr → Except PyErr Val
        if (cx.meths m).isSome && (fs.lookup m).isNone then .ok (.bound o m) else .error (.other "AttributeError")
      | some _ => .error (unsupported "bound method of something else than an object")
      | none => .error (.other "UnboundLocalError"))
+  | .avar x =>
+    (match env.lookup x with
+     | some (.ref o f) => (match getField env o f with | .ok fv => .ok fv.toVal | .error err => .error err)
+     | some _ => .error (unsupported "a variable that is not a second name of a field")
+     | none => .error (.other "UnboundLocalError"))
+  | .compItems k v elt d =>
+    (match eval cx env d with
+     | .error err => .error err
+     | .ok (.dict kvs) =>
+       (match collectPy (kvs.map (fun p => eval cx (assocSet (assocSet env k (.py p.1)) v (.py p.2)) elt)) with
+        | .ok vs => .ok (.list vs)
+        | .error err => .error err)
+     | .ok _ => .error (unsupported "comprehension over something else than the items of a dict"))
+  | .objAttr o n =>
+    (match eval cx env n with
+     | .error err => .error err
+     | .ok (.py (.str a)) =>
+       (match env.lookup o with
+        | some (.obj fs) => getAttr (.obj fs) (String.ofList a)
+        | _ => .error (unsupported "object.__getattribute__ of something else than self"))
+     | .ok _ => .error .typeError)
+  | .outside what => .error (unsupported what)
 def evalList (cx : Ctx) (env : Env) : List Expr → Except PyErr (List Val)
   | [] => .ok []
   | e :: es =>
@@ -1108,6 +1202,29 @@ def execS (cx : Ctx) (env : Env) : Stmt → Env × Res
            | .error err => (env, .exc err)
            | .ok fv' => ((putField env o listPart fv').1, .next))
         | some _ => (env, .exc (unsupported "list method of something else than self"))
+        | none => (env, .exc (.other "UnboundLocalError"))))
+  | .alias x o f =>
+    (match getField env o f with
+     | .error err => (env, .exc err)
+     | .ok _ => (assocSet env x (.ref o f), .next))
+  | .setItemRef x k v =>
+    (match eval cx env v with
+     | .error err => (env, .exc err)
+     | .ok vv =>
+       (match eval cx env k with
+        | .error err => (env, .exc err)
+        | .ok kv =>
+          (match env.lookup x with
+           | some (.ref o f) => setItemAt env o f kv vv
+           | some _ => (env, .exc (unsupported "a variable that is not a second name of a field"))
+           | none => (env, .exc (.other "UnboundLocalError")))))
+  | .delItemRef x k =>
+    (match eval cx env k with
+     | .error err => (env, .exc err)
+     | .ok kv =>
+       (match env.lookup x with
+        | some (.ref o f) => delItemAt env o f kv
+        | some _ => (env, .exc (unsupported "a variable that is not a second name of a field"))
         | none => (env, .exc (.other "UnboundLocalError"))))
 def execL (cx : Ctx) (env : Env) : List Stmt → Env × Res
   | [] => (env, .next)
